@@ -386,7 +386,7 @@ class Evaluator:
                         elif after == 0:
                             v = ("rest", val, s)
                         else:
-                            v = ("top", "star-unpack")
+                            v = self.index(val, ("slice", C(s) if s else C(None), C(-after), C(None)))
                         self.assign_target(e.value, v, fr, st)
                     else:
                         k = i - n
@@ -1289,4 +1289,4 @@ def ts(t, ev=None, depth=0):
         return f"state#{t[1]}"
     if h in ("undef", "top", "fstr", "loopbreak", "axis", "axis-of-rest", "kwaxis", "dictmerge"):
         return "<" + " ".join(str(x) if not isinstance(x, tuple) else f(x) for x in t) + ">"
-    return "<" + h + ">"
+    return "<" + str(h) + ">"
